@@ -61,6 +61,8 @@ pub static mut LOCK_ACQS: u32 = 0;
 
 /// called when send() meets a full queue / recv() an empty one: "let the peer run now"
 pub static mut BLOCK_HOOK: Option<fn(u8)> = None;
+/// called when recv() finds the queue empty: "let a producer run now"
+pub static mut RECV_BLOCK_HOOK: Option<fn(u8)> = None;
 /// recv() found nothing and nobody could produce: the logical thread parks (harness stops it)
 pub static mut PARKED: bool = false;
 
